@@ -993,7 +993,12 @@ def run(ctx):
   # (E) nested values: lookup, traverse, pg.traverse, pg.query, flatten, canonicalize
   values = list(CORPUS_VALUES)
   for _ in range(ctx.scale(450, 6000)):
-    values.append(gen_value(rng, rng.choice([1, 2, 2, 3, 3, 4]), int_keys=rng.choice([0.0, 0.15, 0.4])))
+    v = gen_value(rng, rng.choice([1, 2, 2, 3, 3, 4]), int_keys=rng.choice([0.0, 0.15, 0.4]))
+    for _ in range(3):                       # few bare leaves at the root
+      if isinstance(v, (dict, list)) and v: break
+      if rng.random() < 0.15: break
+      v = gen_value(rng, rng.choice([2, 3, 4]), int_keys=rng.choice([0.0, 0.15, 0.4]))
+    values.append(v)
   for v in values:
     nt = depth_of(v) >= 2
     ctx.hist('value_depth', depth_of(v))
